@@ -51,18 +51,19 @@ func (pass *Unspec) Process(schemas []*ast.Schema) ([]*ast.Schema, error) {
 	return schemas, nil
 }
 
-// referencedObjects gives the objects (`pkg.Name`) that a type of the schemas refers to.
-func (pass *Unspec) referencedObjects(schemas []*ast.Schema) map[string]struct{} {
-	referenced := make(map[string]struct{})
+// referencedObjects gives the objects that a type of the schemas refers to.
+func (pass *Unspec) referencedObjects(schemas []*ast.Schema) map[ast.RefType]struct{} {
+	// package and name are kept apart: joined by a dot, `k8s` + `io.metadata` would be `k8s.io` + `metadata`
+	referenced := make(map[ast.RefType]struct{})
 
 	collector := &Visitor{
 		OnRef: func(_ *Visitor, _ *ast.Schema, def ast.Type) (ast.Type, error) {
-			referenced[def.AsRef().String()] = struct{}{}
+			referenced[def.AsRef()] = struct{}{}
 			return def, nil
 		},
 		OnConstantRef: func(_ *Visitor, _ *ast.Schema, def ast.Type) (ast.Type, error) {
 			constantRef := def.AsConstantRef()
-			referenced[ast.RefType{ReferredPkg: constantRef.ReferredPkg, ReferredType: constantRef.ReferredType}.String()] = struct{}{}
+			referenced[ast.RefType{ReferredPkg: constantRef.ReferredPkg, ReferredType: constantRef.ReferredType}] = struct{}{}
 			return def, nil
 		},
 	}
@@ -76,9 +77,9 @@ func (pass *Unspec) referencedObjects(schemas []*ast.Schema) map[string]struct{}
 }
 
 // renameSpec renames the "spec" object of a schema and returns the names it changed.
-func (pass *Unspec) renameSpec(schema *ast.Schema, referenced map[string]struct{}) map[string]string {
+func (pass *Unspec) renameSpec(schema *ast.Schema, referenced map[ast.RefType]struct{}) map[string]string {
 	schema.Objects = schema.Objects.Filter(func(_ string, object ast.Object) bool {
-		if _, inUse := referenced[object.SelfRef.String()]; inUse {
+		if _, inUse := referenced[object.SelfRef]; inUse {
 			return true
 		}
 
